@@ -480,9 +480,36 @@ func (s *Store) Cmp(op string, a, b *Term) *Term {
 	return s.mkOp("cmp"+op, TBool, a, b)
 }
 
+// nonNeg: syntactically non-negative integer terms (masks, unsigned narrowings, lengths).
+func nonNeg(t *Term) bool {
+	if v, ok := t.IntVal(); ok {
+		return v >= 0
+	}
+	switch {
+	case t.Op == "and":
+		return nonNeg(t.Args[0]) || nonNeg(t.Args[1])
+	case t.Op == "len" || t.Op == "max0" || t.Op == "narrow:uint8" || t.Op == "narrow:byte" || t.Op == "narrow:uint16" || t.Op == "narrow:uint32":
+		return true
+	case t.Op == "shr":
+		return nonNeg(t.Args[0])
+	case t.Op == "call:math/bits.OnesCount8":
+		return true
+	}
+	return false
+}
+
 func (s *Store) le0(d *Term) *Term {
 	if v, ok := d.IntVal(); ok {
 		return s.Bool(v <= 0)
+	}
+	// x > 0 on a non-negative x is x != 0 ; x <= 0 is x == 0
+	if as, cs, off := linParts(d); len(as) == 1 && nonNeg(as[0]) {
+		if cs[0].Cmp(big.NewInt(-1)) == 0 && off.Cmp(big.NewInt(1)) == 0 {
+			return s.Not(s.eq0(as[0]))
+		}
+		if cs[0].Cmp(big.NewInt(1)) == 0 && off.Sign() == 0 {
+			return s.eq0(as[0])
+		}
 	}
 	// normalise by gcd of coefficients when offset allows (keeps i<n and 2i<2n apart; rarely needed) — skip
 	return s.mkOp("le0", TBool, d)
